@@ -203,7 +203,7 @@ theorem inv_of_commit (P : Params V) (L : Layout) (hL : L.Pos) (d0 d d' : Doc V)
   · rw [hst]; simp only [commit]; rw [pf.start_same]; exact hi.start_eq
   · rw [hst]; simp only [commit]; have := hi.len_ge; have := pf.len_same; omega
   · obtain ⟨e0, a, b⟩ := hi.objs_ext
-    refine ⟨e0 ++ ext ++ [⟨w.len, (prep d).xid, 0, P.xrefVal (saveInfoOf (prep d) w (w.refs.set (prep d).xid (.raw (w.len - (prep d).st2.start) 0)) rows), []⟩], ?_, ?_⟩
+    refine ⟨e0 ++ ext ++ [⟨w.len, (prep d).xid, 0, P.xrefRec d.tr (prep d).infoRef (saveInfoOf (prep d) w (w.refs.set (prep d).xid (.raw (w.len - (prep d).st2.start) 0)) rows), []⟩], ?_, ?_⟩
     · rw [hst]; simp only [commit]; rw [k2, pf.objs_eq, a]; simp
     · intro o ho
       simp only [List.mem_append, List.mem_singleton] at ho
